@@ -60,6 +60,11 @@ def _retype_for_coercion(rng, fs, col, numeric_only=False):
 def add_parse_options(rng, spec, table, *, neutral=False, allow_drop=True):
     """Mutates spec/table in place; returns the list of options applied."""
     opts = []
+    # frame-level dtype / checks are exercised by C01/C02 without parsing
+    # options; here "conforming by construction" is about the column schemas
+    spec.pop("checks", None)
+    if spec["kind"] == "frame":
+        spec["dtype"] = None
     if spec["kind"] == "series":
         fs = spec["field"]
         col = table["columns"][0]
@@ -141,7 +146,9 @@ def add_parse_options(rng, spec, table, *, neutral=False, allow_drop=True):
                 # else: neither -> ADD_MISSING_COLUMN_NO_DEFAULT expected
                 if fs.get("default") is None and not fs["nullable"]:
                     opts.append("inexact:no_default_for_missing_column")
-                elif fs.get("default") is None and (fs["unique"] or fs["dtype"] in ("int64", "bool")):
+                elif fs.get("default") is None and (
+                        fs["unique"] or fs["dtype"] in ("int64", "bool")
+                        or any(not c.get("ignore_na", True) for c in fs["checks"])):
                     opts.append("inexact:added_all_null_column")
                 table["columns"] = [c for c in table["columns"] if c["name"] != fs["name"]]
                 cols.pop(fs["name"], None)
@@ -184,6 +191,9 @@ def strip(spec):
 
 def gen_parse_case(rng, *, neutral=False, allow_drop=True, kind=None, mutate_p=0.35):
     spec = G.gen_spec(rng, neutral=neutral, kind=kind)
+    spec.pop("checks", None)
+    if spec["kind"] == "frame":
+        spec["dtype"] = None
     table = G.gen_table(rng, spec)
     opts = add_parse_options(rng, spec, table, neutral=neutral, allow_drop=allow_drop)
     muts = []
